@@ -402,8 +402,16 @@ impl Check for C16 {
                 PathSpec::new(vec![POp::M(30000.0, 30000.0), POp::C(30010.0, 30000.0, 30020.0, 30010.0, 30030.0, 30000.0), POp::M(0.0, 0.0), POp::Q(10.0, 20.0, 20.0, 0.0)]),
                 PathSpec::new(vec![POp::M(1.0e6, 0.0), POp::Q(1.0e6 + 5.0, 10.0, 1.0e6 + 10.0, 0.0), POp::M(3.0, 4.0), POp::Q(10.0, 20.0, 20.0, 0.0), POp::Z, POp::C(1.0, 9.0, 9.0, 9.0, 9.0, 1.0)]),
             ];
+            // a path whose flattening runs to more than 65536 (and 2^17) ops: the last curve is held
+            // to the tolerance like the first
+            let arches = |n: usize| PathSpec::new(std::iter::once(POp::M(0.0, 0.0)).chain((0..n).map(|i| POp::Q(2.0 * i as f32 + 1.0, 60.0 + (i % 7) as f32, 2.0 * i as f32 + 2.0, (i % 3) as f32))).collect());
+            let mut big = big;
+            big.push(arches(1500));
+            if !q {
+                big.push(arches(4000));
+            }
             let btols: Vec<f32> = if q { vec![0.002, 0.05, 0.0001, f32::INFINITY] } else { vec![0.001, 0.002, 0.01, 0.05, 1.0, 0.0001, f32::INFINITY, f32::MAX] };
-            run.bound("large curves at fine tolerances", format!("{} paths (curves 600-6000 units across; curves 3e4 / 1e6 away followed by curves near the origin) x tolerances {:?}", big.len(), btols));
+            run.bound("large curves at fine tolerances", format!("{} paths (curves 600-6000 units across; curves 3e4 / 1e6 away followed by curves near the origin; 1500 / 4000 arches in one path) x tolerances {:?}", big.len(), btols));
             run.par(big.len() * btols.len(), |s, l| {
                 let p = &big[s / btols.len()];
                 let tol = btols[s % btols.len()];
